@@ -312,7 +312,7 @@ def r5(rep, prog):
         if cn:
             rule_precede(rep, prog, R, mb.id, {cn[0][1]["f"]}, prog.names(r"OpenOptions::open$"), "create_new(true)", "OpenOptions::open", a_ok=False)
         # AlreadyExists -> FileAlreadyExists
-        cl = [prog.body(r) for r in prog.body_refs(mb) if "{closure" in r]
+        cl = [mb] + [prog.body(r) for r in prog.body_refs(mb) if "{closure" in r]      # a map_err closure or a match in place
         rep.check(any(c is not None and any(st.get("variant") == "FileAlreadyExists" for b in c.normal_blocks() for st in c.stmts(b)) for c in cl), R,
                   "MmapDirectory::open_write reports FileAlreadyExists", "map_err closure", "MmapDirectory::open_write no longer reports FileAlreadyExists", site=mb.span)
     # MmapDirectory::acquire_lock
@@ -331,7 +331,8 @@ def r5(rep, prog):
         busy = [st for b in ma.normal_blocks() for st in ma.stmts(b) if st.get("r") == "agg" and st.get("variant") == "LockBusy"]
         cl = [prog.body(r) for r in prog.body_refs(ma) if "{closure" in r]
         busy_cl = [1 for c in cl if c is not None for b in c.normal_blocks() for st in c.stmts(b) if st.get("variant") == "LockBusy"]
-        rep.check(bool(busy) and bool(busy_cl), R, "a refused try_lock yields LockBusy", "Err(LockBusy) on `false` and on Err", "MmapDirectory::acquire_lock no longer returns LockBusy when try_lock_exclusive fails", site=ma.span)
+        # two sites: `false` from try_lock and an Err from it; the second one sits in a map_err closure or in a match arm
+        rep.check(bool(busy) and len(busy) + len(busy_cl) >= 2, R, "a refused try_lock yields LockBusy", "Err(LockBusy) on `false` and on Err", "MmapDirectory::acquire_lock no longer returns LockBusy when try_lock_exclusive fails", site=ma.span)
         # the returned lock owns the File
         rl = [st for b in ma.normal_blocks() for st in ma.stmts(b) if st.get("r") == "agg" and st.get("adt") == "tantivy::directory::mmap_directory::ReleaseLockFile"]
         okf = False
